@@ -39,10 +39,12 @@ def heal(limit_hi):
 
         def generator(prompt, error_context=None):
             i = len(calls)
-            b = c.choice(f"gen{i}", ["invalid", "valid", "invalid_no_trace", "raise", "echo_error"])
+            b = c.choice(f"gen{i}", ["invalid", "valid", "invalid_no_trace", "raise", "raise_type_error", "echo_error"])
             calls.append((prompt, error_context, b))
             if b == "raise":
                 raise RuntimeError("generator crashed")
+            if b == "raise_type_error":
+                raise TypeError("unsupported operand type(s) for -: 'str' and 'int'")   # an ordinary bug inside the generator
             text = f"out{i}" if b != "echo_error" else f"echo{i}:{error_context}"
             verdicts[text] = (b == "valid", None if b == "invalid_no_trace" else f"E{i}: field missing")
             return text
@@ -51,7 +53,7 @@ def heal(limit_hi):
         loop = ChaperoneLoop(generator=generator, chaperone=chap, schema=Quote, max_retries=maxr, silent=True)
         try:
             res = loop.heal("PROMPT")
-        except RuntimeError as e:
+        except (RuntimeError, TypeError) as e:
             res = None
         n = len(calls)
         info = {"calls": [b for (_, _, b) in calls]}
@@ -66,9 +68,9 @@ def heal(limit_hi):
             ctxt = calls[i][1]
             want = "Unknown folding error" if prev[2] == "invalid_no_trace" else f"E{i-1}: field missing"
             c.check("C18.b", isinstance(ctxt, str) and want in ctxt, {"what": "retry did not receive the previous attempt's error", "retry": i, "context": ctxt, **info})
-            c.check("C18.b", prev[2] in ("invalid", "invalid_no_trace", "echo_error"), {"what": "retry after a valid/raised attempt", **info})
+            c.check("C18.b", prev[2] in ("invalid", "invalid_no_trace", "echo_error"), {"what": "generator called again after a valid or crashed attempt", **info})
         if res is None:
-            c.check("C18.c", calls[-1][2] == "raise", {"what": "heal raised without the generator raising", **info})
+            c.check("C18.c", calls[-1][2] in ("raise", "raise_type_error"), {"what": "heal raised without the generator raising", **info})
             return
         if res.outcome in (HealingOutcome.HEALED, HealingOutcome.VALID_FIRST_TRY):
             c.check("C18.c", res.folded is not None and res.folded.valid is True and isinstance(res.folded.structure, Quote) and calls[-1][2] == "valid",
@@ -203,7 +205,7 @@ META = {
         "technique": "symbolic execution of the three loops with symbolic limits and adversarial per-call behaviours; z3 for the bound arithmetic",
     },
     "files": ["operon_ai/healing/chaperone_loop.py", "operon_ai/healing/regenerative_swarm.py", "operon_ai/organelles/nucleus.py"],
-    "bounds": {"quick": "max_retries 0..4 x 5 generator behaviours per call; max_regenerations, max_steps 0..3 x 4 step behaviours; max_iterations 0..4 x 3 provider behaviours",
+    "bounds": {"quick": "max_retries 0..4 x 6 generator behaviours per call (incl. raising RuntimeError / TypeError); max_regenerations, max_steps 0..3 x 4 step behaviours; max_iterations 0..4 x 3 provider behaviours",
                "thorough": "max_retries 0..5; others as quick"},
     "outside": ["limits above 4", "step_timeout", "real chaperone (C11)", "entropy threshold other than the default"],
     "float_argument": "confidence decay is concrete float arithmetic (0.1 per retry), only its range [0,1] is asserted",
